@@ -56,7 +56,7 @@ TraceReset ==
   /\ seen' = [a \in Agent |-> {}] /\ tbl' = [a \in Agent |-> {}] /\ net' = EmptyBag
   /\ nann' = [a \in Agent |-> 0] /\ proc' = {} /\ fwd' = {} /\ sent' = EmptyBag
   /\ viol' = [pr |-> FALSE, fw |-> FALSE, c06 |-> FALSE]
-  /\ clean' = [a \in Agent |-> FALSE]
+  /\ clean' = [a \in Agent |-> FALSE] /\ rejoin' = {}
   /\ bud' = [ann |-> [a \in Agent |-> 0], conn |-> 0, disc |-> 0, exp |-> 0, dup |-> 0, age |-> 0]
   /\ last' = [act |-> "Init"]
 
